@@ -11,12 +11,12 @@ import (
 )
 
 type Reply struct {
-	Delay time.Duration
-	Data  []byte
-	Src   string // "" = the controller's own address
-	Reset bool   // TCP: reset the connection instead of sending data
-	EOF   bool   // TCP: close the connection
-	Unreachable bool // connected UDP: ICMP port unreachable
+	Delay       time.Duration
+	Data        []byte
+	Src         string // "" = the controller's own address
+	Reset       bool   // TCP: reset the connection instead of sending data
+	EOF         bool   // TCP: close the connection
+	Unreachable bool   // connected UDP: ICMP port unreachable
 }
 
 type Controller struct {
